@@ -50,7 +50,7 @@ CLAIMED = {
         text="Kernel-checked on the model: the interleave schedule is the sorted permutation of both tracks' entries and restricts to each track in sample order for every reachable writer state; "
              "the offset walk assigns to the j-th scheduled sample start + the sum of the sizes before it; every table entry i resolves (generic chunk walk of the Spec reader + slice) to exactly "
              "frame i's bytes in the written file, for both layouts, with and without audio; the sample ranges are pairwise disjoint, inside the media data and cover it exactly; one-chunk and "
-             "one-sample-per-chunk stsc shapes are resolved by the generic walk. Payload framing is C14's theorem. Correspondence on (bytes, sync, offset, size) per sample; the Spec reader "
+             "one-sample-per-chunk stsc shapes are resolved by the generic walk. End to end (C01_e2e) and for every history of write calls on a fresh writer (C01_history): the independent reader, applied to the bytes handed to the sink, returns for track 0 exactly the re-framed submitted bytes and key flags of the accepted video calls in order, for track 1 the raw payloads of the accepted audio calls; the re-framed bytes parse back to the submitted units (C14, C01_history_units). Correspondence on (bytes, sync, offset, size) per sample; the Spec reader "
              "dereferences every sample of the implementation's file and compares with the submitted frames (small-scope exhaustive histories + random histories incl. B-frames with audio).",
         note=TB + "Found and fixed in /repo: stco indexed in decode order but pushed in PTS-schedule order (known_findings.json).",
         technique="Lean 4 proof (mergeSort permutation/sublist lemmas, prefix-sum induction, reader∘writer on the model) + correspondence check",
@@ -58,7 +58,7 @@ CLAIMED = {
     "C03": dict(
         text="Kernel-checked: writer invariant (strictly increasing video DTS / non-decreasing audio PTS, every non-newest sample carries the exact next-minus-this delta, deltas fit 32 bits, "
              "|pts-dts| fits i32) holds initially and is preserved by every API call; the durations written are exactly the consecutive DTS differences followed by the previous interval; telescoping: "
-             "the decode time of sample k is dts_k - dts_0 for every k (no drift); rle tables expand back exactly; composition offsets are exactly pts-dts and ctts is present iff one is non-zero; "
+             "the decode time of sample k is dts_k - dts_0 for every k (no drift), also stated over histories of calls (C03_history_video/_audio: the times read back from the file are the submitted times of the accepted calls); rle tables expand back exactly; composition offsets are exactly pts-dts and ctts is present iff one is non-zero; "
              "mdhd holds the exact sum of durations and finalize refuses sums above 2^32-1; accepted API calls queue F64.ticks of their arguments. Correspondence on expanded stts/ctts/mdhd incl. long runs.",
         note=TB + "tick = (secs*90000.0).round() as modelled by the soft-float (validated against the FPU by the correspondence run).",
         technique="Lean 4 proof (state-machine invariant by induction over calls, telescoping sums) + correspondence check",
